@@ -40,9 +40,9 @@ def bit_config():
     return M().config.config['bit_config']
 
 
-def bitmap_bytes(bits):
-    """reference: 128-bit bitmap, bit 1 always on, bit n on iff element n present (MSB first)"""
-    v = 1 << 127
+def bitmap_bytes(bits, bit1=True):
+    """reference: 128-bit bitmap, bit 1 on (as the writer renders it; incoming messages may have it clear), bit n on iff element n present"""
+    v = (1 << 127) if bit1 else 0
     for b in bits:
         v |= 1 << (128 - b)
     return v.to_bytes(16, 'big')
